@@ -6,6 +6,7 @@ package raft
 
 import (
 	"github.com/marekgalovic/anndb/cluster"
+	pb "github.com/marekgalovic/anndb/protobuf"
 	uuid "github.com/satori/go.uuid"
 
 	etcdRaft "github.com/coreos/etcd/raft"
@@ -18,6 +19,7 @@ var _ raftpb.Entry
 var _ wal.WAL
 var _ uuid.UUID
 var _ *cluster.Conn
+var _ *pb.SharedGroupProposal
 
 // ---------------------------------------------------------------------------------------------
 // Assumed contracts of the dependencies the ready loop talks to. etcd/raft's own safety is assumed under the host
@@ -310,3 +312,49 @@ var _ *cluster.Conn
 //@ ensures [registered] isnil(ret1) ==> ret0 != nil && fresh(ret0) && ret0.group == group && group.processFn != nil && group.processSnapshotFn != nil && group.snapshotFn != nil
 //@ ensures [untouched] group.transport == old(group.transport) && group.raft == old(group.raft) && group.wal == old(group.wal) && group.ctx == old(group.ctx) && group.log == old(group.log)
 //@ modifies group.processFn, group.processSnapshotFn, group.snapshotFn
+
+// ---------------------------------------------------------------------------------------------
+// C14: the shared zero group hands every entry to the consumer it is addressed to; an entry for a registered consumer is
+// never dropped silently.
+//@ func field:storage/raft.sharedGroupProxy.processFn
+//@ props C14
+//@ assume
+//@ modifies *
+//@ func field:storage/raft.sharedGroupProxy.processSnapshotFn
+//@ props C14
+//@ assume
+//@ modifies *
+//@ func field:storage/raft.sharedGroupProxy.snapshotFn
+//@ props C14
+//@ assume
+//@ modifies nothing
+
+//@ func (*storage/raft.sharedGroup).process
+//@ props C14
+//@ safety C12
+//@ ghost delivered int = 0
+//@ ghost decoded int = 0
+//@ at call proto.Unmarshal
+//@ set decoded = ite(isnil($ret0), 1, 0)
+//@ end
+//@ at call field:storage/raft.sharedGroupProxy.processFn
+//@ set delivered = delivered + 1
+//@ end
+//@ requires [wf] this.proxies != nil
+//@ requires [consumers-complete] forall n string :: has(this.proxies, n) ==> this.proxies[n] != nil && this.proxies[n].processFn != nil
+//@ ensures [delivered-to-its-consumer] decoded == 1 && old(has(this.proxies, proposal.ProxyName)) ==> delivered == 1
+//@ ensures [at-most-once] delivered <= 1
+//@ modifies *
+
+//@ ufunc snapshotProxyNames([]byte) map[string][]byte
+
+//@ func (*storage/raft.sharedGroup).processSnapshot
+//@ props C14
+//@ safety C12
+//@ ghost restored int = 0
+//@ at call field:storage/raft.sharedGroupProxy.processSnapshotFn
+//@ set restored = restored + 1
+//@ end
+//@ requires [wf] this.proxies != nil
+//@ requires [C14 consumers-registered] forall n string :: has(snapshotProxyNames(data), n) ==> has(this.proxies, n) && this.proxies[n] != nil && this.proxies[n].processSnapshotFn != nil
+//@ modifies *
